@@ -9,6 +9,7 @@ import (
 	"crypto/rand"
 	"crypto/rsa"
 	"crypto/sha256"
+	"encoding/asn1"
 	"fmt"
 	"strings"
 	"sync"
@@ -30,6 +31,17 @@ type c16case struct {
 	// the identity this connection is entitled to (0xffff = none: nothing may be attributed)
 	Entitled uint16
 	EntDom   string
+	// MayReject: the connection is entitled to the identity, but the library may also refuse it (unusual encodings of a valid handshake)
+	MayReject bool
+}
+
+// rawHS is the handshake with the domain as a raw ASN.1 value, so that a raw client can choose its string type
+type rawHS struct {
+	Domain     asn1.RawValue
+	TLSBinding []byte
+	Identity   []byte
+	Timestamp  int64
+	Signature  []byte
 }
 
 func signWith(kp *tlsgen.CertKeyPair, h *comm.Handshake) {
@@ -69,6 +81,8 @@ func unitC16(e common.Env, p *common.Part) {
 	env.p2id[lookupKey("dom", fk.rsaCert)] = 7
 	env.p2id[lookupKey("dom", fk.edCert)] = 8
 	env.p2id[lookupKey("dom", fk.p384Cert)] = 9
+	env.p2id[lookupKey("dom", fk.rsaIssued)] = 10
+	env.p2id[lookupKey("dom", fk.edIssued)] = 11
 	unreg, _ := env.ca.NewClientCertKeyPair() // a valid certificate of the same CA that is not registered
 	n2, n3, n5 := env.nodes[2], env.nodes[3], env.nodes[5]
 
@@ -159,7 +173,7 @@ func unitC16(e common.Env, p *common.Part) {
 	for _, reg := range []struct {
 		name string
 		cert []byte
-	}{{"registered RSA identity", fk.rsaCert}, {"registered Ed25519 identity", fk.edCert}} {
+	}{{"registered RSA identity", fk.rsaCert}, {"registered Ed25519 identity", fk.edCert}, {"registered RSA identity certified by an ECDSA CA", fk.rsaIssued}, {"registered Ed25519 identity certified by an ECDSA CA", fk.edIssued}} {
 		reg := reg
 		identity(reg.name+", no signature", reg.cert, func(h *comm.Handshake) {})
 		identity(reg.name+", junk signature", reg.cert, func(h *comm.Handshake) { h.Signature = bytes.Repeat([]byte{0x30}, 64) })
@@ -240,6 +254,42 @@ func unitC16(e common.Env, p *common.Part) {
 		body := append(append([]byte{}, v[2:]...), 0, 0, 0)
 		return append([]byte{byte(len(body)), byte(len(body) >> 8)}, body...)
 	}, Entitled: 2, EntDom: "dom"})
+
+	// domain string types: the decoder accepts several ASN.1 string types, the signed bytes are the receiver's re-encoding
+	domCase := func(name string, tag int, raw []byte, canonical string, ent uint16) {
+		add(c16case{Field: "encoding", Mutation: "domain as " + name, Raw: func(v []byte) []byte {
+			var hv comm.Handshake
+			if _, err := asn1.Unmarshal(v[2:], &hv); err != nil {
+				return v[:1]
+			}
+			r := rawHS{Domain: asn1.RawValue{Class: asn1.ClassUniversal, Tag: tag, Bytes: raw}, TLSBinding: hv.TLSBinding, Identity: hv.Identity, Timestamp: hv.Timestamp}
+			var signed []byte
+			if canonical != "" {
+				signed = comm.Handshake{Domain: canonical, TLSBinding: hv.TLSBinding, Identity: hv.Identity, Timestamp: hv.Timestamp}.Bytes()
+			} else {
+				signed, _ = asn1.Marshal(r)
+			}
+			d := sha256.Sum256(signed)
+			r.Signature, _ = n2.ident.Sign(rand.Reader, d[:], nil)
+			body, err := asn1.Marshal(r)
+			if err != nil {
+				return v[:1]
+			}
+			return append([]byte{byte(len(body)), byte(len(body) >> 8)}, body...)
+		}, Entitled: ent, EntDom: "dom", MayReject: ent != none})
+	}
+	domCase("T61String with bytes that are not UTF-8", asn1.TagT61String, []byte{0xff, 'o', 'm'}, "", none)
+	domCase("T61String 'dom' followed by a byte that is not UTF-8", asn1.TagT61String, []byte{'d', 'o', 'm', 0xfe}, "", none)
+	domCase("GeneralString with bytes that are not UTF-8", asn1.TagGeneralString, []byte{0xc3, 0x28}, "", none)
+	domCase("T61String 'dom'", asn1.TagT61String, []byte("dom"), "dom", 2)
+	domCase("IA5String 'dom'", asn1.TagIA5String, []byte("dom"), "dom", 2)
+	domCase("UTF8String 'dom'", asn1.TagUTF8String, []byte("dom"), "dom", 2)
+	domCase("BMPString 'dom'", asn1.TagBMPString, []byte{0, 'd', 0, 'o', 0, 'm'}, "dom", 2)
+	domCase("BMPString of odd length", asn1.TagBMPString, []byte{0, 'd', 0}, "", none)
+	domCase("NumericString with letters", asn1.TagNumericString, []byte("dom"), "", none)
+	domCase("UTF8String that is not UTF-8", asn1.TagUTF8String, []byte{'d', 0xff}, "", none)
+	domCase("OCTET STRING", asn1.TagOctetString, []byte("dom"), "", none)
+	domCase("UTF8String 'dom' with a NUL appended", asn1.TagUTF8String, []byte("dom\x00"), "", none)
 
 	// --- run: hostile connections interleaved with honest ones (node 5 keeps sending honest traffic)
 	honest := env.client(1, "dom", honestAuth(n5.ident, "dom"))
@@ -329,7 +379,9 @@ func unitC16(e common.Env, p *common.Part) {
 			}
 		} else {
 			if len(hits) == 0 {
-				if s.c.Raw != nil && s.c.Field == "none" {
+				if s.c.MayReject {
+					p.Count("unusual_encodings_refused", 1)
+				} else if s.c.Raw != nil && s.c.Field == "none" {
 					selfCheckOK = false
 				} else if s.c.Field == "none" {
 					viol("valid-handshake-rejected", "a message sent after a valid handshake ("+s.c.Mutation+") never arrived", wit)
